@@ -73,6 +73,18 @@ class Pair:
         self.ts.start_server(threading.Event(), Srv())
         self.tc.start_client(timeout=WAIT)
         self.tc.auth_password("alice", PW)
+        # things a client application may legitimately have configured; none of them may make the client serve
+        # requests from the server: a registered subsystem handler (Transport.set_subsystem_handler)
+        from paramiko.server import SubsystemHandler
+
+        self.subsystem_started = []
+        pair_ = self
+
+        class Sub(SubsystemHandler):
+            def start_subsystem(self, name, transport, channel):
+                pair_.subsystem_started.append(name)
+
+        self.tc.set_subsystem_handler("pvsub", Sub)
         # the scripted server must not react to the client's answers (a real server channel closes itself on
         # CHANNEL_FAILURE, which would make the client send EOF/CLOSE): swallow replies on the server side
         ts = self.ts
